@@ -42,6 +42,35 @@ var formatFns = map[string]int{
 }
 var printFns = map[string]bool{"fmt.Sprint": true, "fmt.Sprintln": true, "fmt.Fprint": true, "fmt.Fprintln": true, "fmt.Print": true, "fmt.Println": true, "fmt.Append": true, "fmt.Appendln": true}
 
+// processLocalCalls: library state that lives in the process, not in the store: a result that depends on it depends
+// on the history of the process (restarts, other instances), which is not part of "prior state and input".
+var processLocalCalls = []string{"(*sync.Map).", "(*sync.Pool).", "sync/atomic.", "(*sync/atomic."}
+
+// globalRoot: the package-level variable an address or a loaded map value is rooted in (nil if none)
+func globalRoot(v ssa.Value) *ssa.Global {
+	for i := 0; i < 8 && v != nil; i++ {
+		switch x := v.(type) {
+		case *ssa.Global:
+			if x.Pkg != nil && inRepo(x.Pkg.Pkg) {
+				return x
+			}
+			return nil
+		case *ssa.FieldAddr:
+			v = x.X
+		case *ssa.IndexAddr:
+			v = x.X
+		case *ssa.UnOp:
+			if x.Op != token.MUL {
+				return nil
+			}
+			v = x.X
+		default:
+			return nil
+		}
+	}
+	return nil
+}
+
 func consensusFn(e *Engine, fn *ssa.Function) bool {
 	if fn.Pkg == nil || !inRepo(fn.Pkg.Pkg) || len(fn.Blocks) == 0 {
 		return false
@@ -91,6 +120,14 @@ func hookC19(cr *checkRun) {
 							add(x.Pos(), "range over a map (%s) whose iteration order can be observed (%s): the order is randomised per run", x.X.Type(), why)
 						}
 					}
+				case *ssa.Store:
+					if g := globalRoot(x.Addr); g != nil && fn.Name() != "init" && !strings.HasPrefix(fn.Name(), "init#") {
+						add(x.Pos(), "store to package-level variable %s outside init: process-local state that later results can depend on (not part of the chain state a replay starts from)", g.Name())
+					}
+				case *ssa.MapUpdate:
+					if g := globalRoot(x.Map); g != nil && fn.Name() != "init" && !strings.HasPrefix(fn.Name(), "init#") {
+						add(x.Pos(), "update of package-level map %s outside init: process-local state that later results can depend on", g.Name())
+					}
 				case *ssa.Go:
 					add(x.Pos(), "go statement")
 				case *ssa.Select:
@@ -116,6 +153,11 @@ func hookC19(cr *checkRun) {
 					name := callee.String()
 					if o := callee.Origin(); o != nil {
 						name = o.String()
+					}
+					for _, pm := range processLocalCalls {
+						if strings.HasPrefix(name, pm) {
+							add(ins.Pos(), "call to %s: process-local mutable state (memo, pool, atomic) - what it returns depends on what this process handled before, not on the chain state", name)
+						}
 					}
 					for _, nd := range nondetCalls {
 						if name == nd || (strings.HasSuffix(nd, ".") && strings.HasPrefix(name, nd)) {
